@@ -181,8 +181,16 @@ def _subscript_sites(cfg, attr):
            "uid is removed (or the reverse map is rebuilt), so a UID becomes free when its holder changes UID")
 def u2(ctx):
     obs = []
+    targets = []
     for cq in STORES:
-        fi = ctx.own_method(cq, "_scan_uids")
+        scan = ctx.own_method(cq, "_scan_uids")
+        targets.append((cq, scan, True))
+        # any other method of the store that records a name in the forward map has the same obligation
+        for f_ in ctx.P.cls(cq).methods.values():
+            if f_ is not scan and f_.name != "__init__" and not ctx.absorbed(f_) \
+                    and any(s_[1] == "store" for s_ in _subscript_sites(ctx.cfg(f_), FWD)):
+                targets.append((cq, f_, False))
+    for cq, fi, is_scan in targets:
         cfg = ctx.cfg(fi)
         du = DefUse(cfg)
         fstores = [s for s in _subscript_sites(cfg, FWD) if s[1] == "store"]
@@ -400,4 +408,56 @@ def u6(ctx):
                               "skip only if %s[name] holds this etag" % FWD.split(".")[-1],
                               "a listed file is skipped under `%s`, which is not 'this NAME is already mapped with this etag': the same bytes under "
                               "another name (or a file returning to earlier bytes) are never (re)registered" % " and ".join(src(t) for t, pol in req if pol)))
+    return obs
+
+
+
+@rule("C06", "U7", floor=2, kind="S",
+      desc="one classification of names: the File class used to parse a stored member (open_by_extension) and the "
+           "content type the listing reports for it are both MIMETYPES.guess_type(name) - otherwise a member that is "
+           "listed as a calendar object is parsed as a plain file, has no UID for the store, and duplicates are accepted")
+def u7(ctx):
+    obs = []
+
+    def typed_by_guess(fi, node, e, du, p_name=None) -> bool:
+        os_ = [o for o in origins(du, node, e)]
+        if not os_:
+            return False
+        seen_guess = False
+        for o in os_:
+            v = o.leaf
+            if o.kind == "expr" and isinstance(v, ast.Call) and (dotted(v.func) or "").endswith("MIMETYPES.guess_type") and o.path == (0,):
+                seen_guess = True
+                continue
+            if o.kind == "expr" and v is not None and not o.path and ctx.P.try_fold(fi.module, v) is not None:
+                continue      # the constant default
+            if o.kind == "expr" and isinstance(v, ast.Constant):
+                continue
+            return False
+        return seen_guess
+
+    oe = ctx.func("xandikos.store.open_by_extension")
+    cfg = ctx.cfg(oe)
+    du = DefUse(cfg)
+    sites = [(n, c) for n in cfg.stmt_nodes() for c in n.calls() if (dotted(c.func) or "").split(".")[-1] == "open_by_content_type"]
+    if not sites:
+        raise AnalysisError("open_by_extension no longer delegates to open_by_content_type")
+    for n, c in sites:
+        a = c.args[1] if len(c.args) > 1 else next((k.value for k in c.keywords if k.arg == "content_type"), None)
+        ok = a is not None and typed_by_guess(oe, n, a, du)
+        obs.append(ctx.ob(ok, oe.qualname, where(oe, n), "parser chosen by MIMETYPES.guess_type(name)", "content type = MIMETYPES.guess_type(name)[0] or the default",
+                          "open_by_extension derives the content type as `%s`, not from MIMETYPES.guess_type(name): names the listing classifies as "
+                          "calendar objects (upper-case or compound extensions) are opened as plain files and never get a UID" % (src(a) if a is not None else "?")))
+    it = ctx.own_method("xandikos.store.git.GitStore", "iter_with_etag")
+    cfg = ctx.cfg(it)
+    du = DefUse(cfg)
+    ys = [n for n in cfg.stmt_nodes() if n.kind == "stmt" and isinstance(n.ast, ast.Expr) and isinstance(n.ast.value, ast.Yield)
+          and isinstance(n.ast.value.value, ast.Tuple) and len(n.ast.value.value.elts) == 3]
+    if not ys:
+        raise AnalysisError("GitStore.iter_with_etag: yield (name, content_type, etag) not found")
+    for y in ys:
+        a = y.ast.value.value.elts[1]
+        obs.append(ctx.ob(typed_by_guess(it, y, a, du), it.qualname, where(it, y), "listing reports MIMETYPES.guess_type(name)",
+                          "content type = MIMETYPES.guess_type(name)[0] or the default",
+                          "GitStore.iter_with_etag reports `%s` as content type, not MIMETYPES.guess_type(name)" % src(a)))
     return obs
